@@ -1,9 +1,8 @@
 /-
   C01Sem — the id-side half of the bridge between C01 (`id_sound`, stated over the environment `M.env G` of a
   semi-Markovian model) and C10 (`canon_den`, stated over every `ProbFamily` environment).  The C10-side half is
-  Y0/Props/C10Sem.lean (`canonical_of_sound`); the two lemma libraries cannot be imported together yet (duplicate
-  names `Y0.den_mkFrac`, `Y0.mem_dedup'`, `Y0.nodup_dedup'`), so the composed statement `id_sound_canonical` lives in
-  lean/pending/C10SemId.lean until the rename lands.
+  Y0/Props/C10Sem.lean (`canonical_of_sound`); the composed statement `id_sound_canonical` is in
+  Y0/Props/C10SemId.lean.
 
   Here: every estimand returned by `identify`
     * is a single-world expression over the nodes of the graph (`id_estimand_swOK`; hypothesis `hsw` of
